@@ -556,6 +556,13 @@ func init() {
 				}
 			}
 			names = append(names, "Int", "String", "Nowhere", "__Nope")
+			// names of directives are not names of types: `__type` answers null (GetType also finds directives)
+			names = append(names, "deprecated", "skip")
+			for _, d := range set.defs {
+				if d.kind == "directive" {
+					names = append(names, d.name)
+				}
+			}
 			queries := []struct {
 				label string
 				tops  []*iTop
